@@ -200,10 +200,31 @@ def lit(s: str) -> Fraction:
         return Fraction(repr(float(s)))
 
 
+# D1 drops decorators.  That is only sound for decorators that do not change what the call computes.  These are accepted:
+#   property / x.setter / staticmethod / classmethod / abstractmethod / overload / wraps  -- binding only;
+#   cache_computed_values -- memoisation; its transparency (no stale entry survives a change of what the method reads) is the obligation C14.I_cache.all;
+#   singledispatch registration -- the contracts that extract such functions bind the dispatcher themselves.
+# Any other decorator makes the extracted text differ from the code that runs: the obligation is reported undecided, never discharged.
+TRANSPARENT_DECORATORS = ("property", "staticmethod", "classmethod", "abstractmethod", "overload", "cache_computed_values", "singledispatch", "lru_cache", "cache", "wraps")
+
+
+def check_decorators(fn: "Fn"):
+    node = fn.node
+    if not isinstance(node, ast.FunctionDef):
+        return
+    for d in node.decorator_list:
+        txt = ast.unparse(d)
+        base = txt.split("(")[0].split(".")[-1]
+        if base in TRANSPARENT_DECORATORS or txt.endswith(".setter") or txt.endswith(".getter") or txt.endswith(".register") or ".register(" in txt:
+            continue
+        raise Unsupported(f"{fn.key} carries the decorator @{txt}, which the extraction would drop: the extracted text is not the code that runs")
+
+
 def compile_fn(fn: Fn, glob: dict, exact: bool = True):
     """Compile the extracted function (same AST, see module docstring for what is dropped)."""
     src, _ = read(fn.path)
     node = copy.deepcopy(fn.node)
+    check_decorators(fn)
     _annotate_float_sources(node, src.splitlines())
     # deepcopy drops private attrs? (_src is kept by deepcopy since it's in __dict__)
     node = _Strip(exact).visit(node)
